@@ -154,6 +154,12 @@ def one_case(arg):
                                         {"repo": [seed, idx], "kind": kind, "diffs": bad[:5]}))
                 out["sample"] = {"modes": sorted(outs), "kind": kind, "unique_commit_count": js.get("unique_commit_count"),
                                  "replace_refs": [r for r in m.refs if r.startswith("refs/replace/")][:2]}
+        if idx % 4 == 1:
+            class _C:
+                def count(self, n=1): out["evals"] += n
+                def bump(self, *a): pass
+                def violation(self, sig, det): out["viol"].append((sig, det))
+            R.fault_probe(_C(), "C13", sz, sub, argv, rng, shimdir, d, n=3, env={"GIT_DIR": "../../.git"})
         # --- explicit ROOTs that navigate THROUGH replaced / grafted objects (rev~1, rev^, rev^{tree}): what they name
         # must be decided on the stored objects as well
         if kind != "none":
